@@ -223,8 +223,11 @@ pub fn for_each_source(t: &Tree, sc: &Scratch, mode: Mode, st: &mut SrcStats, f:
             let mut w = zip::ZipWriter::new(std::io::Cursor::new(Vec::with_capacity(1024)));
             for &m in &order {
                 if let mk::M::File(i) = m {
-                    let f = master.by_index_raw(i).map_err(|e| std::io::Error::new(std::io::ErrorKind::Other, e.to_string()))?;
-                    w.raw_copy_file_rename(f, mk::member_path(t, m, true)).map_err(|e| std::io::Error::new(std::io::ErrorKind::Other, e.to_string()))?;
+                    // the first spelling holds an OLDER version of the file (an archive that was added
+                    // to): the member that comes last is the one an extraction leaves on disk
+                    use std::io::Write;
+                    w.start_file(mk::member_path(t, m, true), zip::write::FileOptions::default().compression_method(zip::CompressionMethod::Stored)).map_err(|e| std::io::Error::new(std::io::ErrorKind::Other, e.to_string()))?;
+                    w.write_all(format!("older version of member {i}, superseded").as_bytes())?;
                 }
             }
             for &m in &order {
@@ -240,7 +243,7 @@ pub fn for_each_source(t: &Tree, sc: &Scratch, mode: Mode, st: &mut SrcStats, f:
             Ok(w.finish().map_err(|e| std::io::Error::new(std::io::ErrorKind::Other, e.to_string()))?.into_inner())
         })();
         let bytes = built.map_err(mach("zip with two spellings"))?;
-        let v = Variant { kind: "zip", dirs, prefix: false, deflate: false, order: "sorted".into(), backing: "mem", writer: "raw-copy, every file under `./name` and `name`" };
+        let v = Variant { kind: "zip", dirs, prefix: false, deflate: false, order: "sorted".into(), backing: "mem", writer: "every file under `./name` (older content) and then `name`" };
         match Zip::from_bytes(&bytes[..]) {
             Ok(z) => {
                 st.zip_mem += 1;
